@@ -52,10 +52,13 @@ contract(HE + "max_regret_var_heuristic.py::max_regret_var_heuristic", types=COS
 
 contract(HE + "min_cost_dom_heuristic.py::min_cost_dom_heuristic", types=dict(DH_TYPES, params="i64[D2,W]"), props=["C09", "C02", "C16", "C19", "C08"],
          requires=dom_heuristic_requires(2) + ["D2 == D", "0 <= shr_domains_stack[stacks_top[0], dom_idx, MIN] and shr_domains_stack[stacks_top[0], dom_idx, MAX] < W",
-                                              "forall(v, 0, W, 0 < params[dom_idx, v] and params[dom_idx, v] < 9223372036854775807)"],
+                                              # costs may be non-positive (skipped by the scan, e.g. the zero diagonal of the TSP matrix): what is needed is one candidate
+                                              "forall(v, 0, W, params[dom_idx, v] < 9223372036854775807)",
+                                              "exists(v, shr_domains_stack[stacks_top[0], dom_idx, MIN], shr_domains_stack[stacks_top[0], dom_idx, MAX] + 1, trig(v) == v and 0 < params[dom_idx, v])"],
          ensures=dom_heuristic_ensures(2), modifies=DH_MODIFIES, tags=DH_TAGS,
          loops={1: dict(index="j", fingerprint="for range(shr_domain[MIN], shr_domain[MAX] + 1)", invariant=[
-             ("C09.best", "(j == 0 and best_value == -1 and best_cost == 9223372036854775807) or (j > 0 and shr_domain[MIN] <= best_value and best_value < shr_domain[MIN] + j and best_cost < 9223372036854775807)")])},
+             ("C09.best", "(best_value == -1 and best_cost == 9223372036854775807 and forall(v, shr_domain[MIN], shr_domain[MIN] + j, trig(v) == v and params[dom_idx, v] <= 0)) "
+                          "or (j > 0 and shr_domain[MIN] <= best_value and best_value < shr_domain[MIN] + j and 0 < best_cost and best_cost < 9223372036854775807)")])},
          arities=[{"H": 4, "D": 2, "P": 1, "D2": 2, "W": 3, "_pin": {"stacks_top": [0]}}, {"H": 4, "D": 2, "P": 1, "D2": 2, "W": 3, "_pin": {"stacks_top": [1]}}])
 
 # the two heuristics shaving probes with: the branch taken is the single bound value (C10)
